@@ -1,5 +1,7 @@
 """C13 - concentration analysis zeroes the baseline and applies its stages in order."""
 import copy
+import os
+import shutil
 
 import numpy as np
 import skimage
@@ -41,23 +43,70 @@ def _inplace_balance(x):
     return x
 
 
-# harness-side maps (the spy stages) and the reference semantics of the real darsia stages
+def _drop_channels(x):
+    """A model that itself takes a colour signal to one channel (as the kernel interpolation in
+    darsia.utils.detection.monochromatic_concentration_analysis does)."""
+    return x[:, :, 0] + 0.5 * x[:, :, 1] - 0.25 * x[:, :, 2]
+
+
+# harness-side maps (the spy stages) and the reference semantics of the real darsia stages; the
+# real linear / scaling models get their parameters from the case (`bal_par`, `mod_par`)
 BAL = {
     "spy": lambda x: 2.0 * x + 1.0,
     "spy-inplace": lambda x: 2.0 * x + 1.0,
-    "linear": lambda x: 2.0 * x + 1.0,
-    "scaling": lambda x: 2.0 * x,
 }
 RES = {
     "spy": lambda x: x * x + 0.25,
 }
 MOD = {
     "spy": lambda x: 3.0 * x - 0.5,
-    "linear": lambda x: 3.0 * x - 0.5,
+    "spy-drop": _drop_channels,
     "clip": lambda x: np.clip(x, 0.0, 1.0),
     "clip-open": lambda x: np.clip(x, 0.25, None),
 }
-TVD_KW = {"method": "chambolle", "weight": 0.25, "max_num_iter": 30, "eps": 1e-5}
+# parameters of the real LinearModel / ScalingModel stages: far from neutral, neutral (1, 0),
+# zero, negative
+BAL_SCALINGS = (2.0, 2.0, 1.0, 0.5, -1.0)
+BAL_OFFSETS = (1.0, 1.0, 0.0, -0.25)
+MOD_SCALINGS = (3.0, 3.0, 1.0, 0.0, -2.0, 0.5)
+MOD_OFFSETS = (-0.5, -0.5, 0.0, 0.25)
+
+
+def _affine(sc, off):
+    sc, off = float(sc), float(off)
+    return lambda x: sc * x + off
+
+
+def _ref_bal(case):
+    kind = case["balancing"]
+    if kind is None:
+        return lambda x: x
+    if kind == "linear":
+        return _affine(*case["bal_par"])
+    if kind == "scaling":
+        return _affine(case["bal_par"][0], 0.0)
+    return BAL[kind]
+
+
+def _ref_mod(case):
+    kind = case["model"]
+    if kind is None:
+        return lambda x: x
+    if kind == "linear":
+        return _affine(*case["mod_par"])
+    return MOD[kind]
+
+
+def _code_affine(cls, key, sc, off=None):
+    """The real model, configured plainly or through a key-prefixed option group (the form the
+    presets use: one options dict, one prefix per stage)."""
+    opts = {key + "scaling": float(sc)}
+    if off is not None:
+        opts[key + "offset"] = float(off)
+    return cls(key=key, **opts) if key else cls(**opts)
+# the fixed variant never stops early (eps = 0: always the full 30 iterations), so that round-off
+# in its input (float32 gray conversion) cannot move the stopping iteration
+TVD_KW = {"method": "chambolle", "weight": 0.25, "max_num_iter": 30, "eps": 0.0}
 
 
 def _ref_tvd(x):
@@ -102,7 +151,10 @@ def _ref_tvd_cfg(cfg):
     return lambda x: skimage.restoration.denoise_tv_bregman(x, isotropic=iso, **kw)
 
 
-def _ref_reduce(kind, w):
+HSV_DEFAULT = (0.0, 360.0, 0.0, 1.0)
+
+
+def _ref_reduce(kind, w, hb=None):
     if kind in (None, ""):
         return lambda d: d
     if kind == "callable":
@@ -124,18 +176,24 @@ def _ref_reduce(kind, w):
     if kind == "negative-key":
         return lambda d: 1 - np.min(1 - d, axis=2)
     if kind == "hsv":
+        hl, hu, sl, su = hb or HSV_DEFAULT
+
         def hsv(d):
             h = skimage.color.rgb2hsv(d)
-            keep = (h[:, :, 0] > 0.0) & (h[:, :, 0] < 360.0) & (h[:, :, 1] > 0.0) & (h[:, :, 1] < 1.0)
+            keep = (h[:, :, 0] > hl) & (h[:, :, 0] < hu) & (h[:, :, 1] > sl) & (h[:, :, 1] < su)
             return np.where(keep, np.max(d, axis=2), 0.0)
         return hsv
     raise AssertionError(kind)
 
 
-def _code_reduce(kind, w):
+def _code_reduce(kind, w, hb=None):
     """The object handed to the analysis (the real reduction class wherever one exists)."""
     if kind is None:
         return None
+    if kind == "hsv" and hb is not None:
+        return darsia.MonochromaticReduction(color="hsv", **{
+            "hue lower bound": hb[0], "hue upper bound": hb[1],
+            "saturation lower bound": hb[2], "saturation upper bound": hb[3]})
     if kind == "callable":
         return darsia.MonochromaticReduction(
             color=lambda d: d[:, :, 0] * w[0] + d[:, :, 1] * w[1] + d[:, :, 2] * w[2])
@@ -159,11 +217,25 @@ def configs(draw, force=None):
     all_dtypes = ["uint8", "uint16", "int16", "int32", "float32", "float32", "float64", "float64"]
     rgb = pick("rgb", st.booleans())
     h, w = draw(st.integers(2, 16)), draw(st.integers(2, 16))
+    # the hue / saturation reduction needs colour differences in [0, 1]: unsigned integer images
+    # and a non-plain difference; that class is constructed (1 in 6 of the RGB cases) rather than
+    # waited for
+    hsv_first = bool(rgb and not (set(force) & {"dtype", "pdtype", "diff", "reduction"})
+                     and draw(st.integers(0, 5)) == 0)
+    if hsv_first:
+        force = dict(force, dtype=draw(st.sampled_from(["uint8", "uint16"])),
+                     diff=draw(st.sampled_from(DIFFS[:3])), reduction="hsv")
+        force["pdtype"] = force["dtype"] if draw(st.booleans()) else draw(st.sampled_from(["uint8", "uint16"]))
     dtype = pick("dtype", st.sampled_from(all_dtypes))
     same = draw(st.integers(0, 3)) > 0
     pdtype = pick("pdtype", st.just(dtype) if same else st.sampled_from(all_dtypes))
     nobase = pick("nobase", st.integers(0, 7).map(lambda k: k == 0))
     diff = pick("diff", st.sampled_from(DIFFS))
+    # options left out: the difference defaults to 'absolute' and restoration runs before the
+    # model (the form of most shipped callers: neither key is passed)
+    omit_diff = bool("diff" not in force and draw(st.integers(0, 4)) == 0)
+    if omit_diff:
+        diff = "absolute"
     if rgb:
         red_kinds = [None, "", "callable", "callable", "red", "green", "blue", "red+green", "gray",
                      "negative-key"]
@@ -177,24 +249,44 @@ def configs(draw, force=None):
     vox = draw(gens.voxel_sizes(2))
     # extra baselines may come in another dtype than the first one
     xdtype = dtype if (nextra == 0 or draw(st.integers(0, 2)) > 0) else draw(st.sampled_from(all_dtypes))
+    if "xdtype" in force and nextra:
+        xdtype = force["xdtype"]
     if reduction == "hsv" and xdtype[0] != "u":
         xdtype = dtype
+    # dtype of a baseline handed over later (updated_baseline)
+    udtype = dtype if reduction == "hsv" else draw(st.sampled_from(all_dtypes))
     restoration = pick("restoration", st.sampled_from([None, "spy", "spy", "tvd", "tvd-cfg", "tvd-cfg"]))
     if restoration == "tvd-cfg" and reduction in ("gray", "hsv"):
         # float32 round-off in these reductions could flip the iteration at which a loosely
         # configured TV denoising stops; they keep the fixed, tightly terminated variant
         restoration = "tvd"
     tvd = draw(tvd_configs()) if restoration == "tvd-cfg" else None
+    omit_order = bool(draw(st.integers(0, 3)) == 0)
+    res_first = True if omit_order else bool(draw(st.sampled_from([True, True, False])))
+    mod_kinds = [None, "spy", "spy", "linear", "clip", "clip-open"]
+    if rgb and not dropping:
+        # a colour signal reaches the model, which may itself reduce it to one channel
+        mod_kinds += ["spy-drop"] * 4
+    hsv_bounds = None
+    if reduction == "hsv" and draw(st.booleans()):
+        hsv_bounds = [draw(st.sampled_from([0.0, 0.1, 0.3])), draw(st.sampled_from([360.0, 0.9, 0.6])),
+                      draw(st.sampled_from([0.0, 0.2])), draw(st.sampled_from([1.0, 0.8]))]
     return {
         "rgb": bool(rgb), "shape": [h, w], "dtype": dtype, "pdtype": pdtype, "xdtype": xdtype,
-        "nobase": bool(nobase),
+        "udtype": udtype, "nobase": bool(nobase),
         "nextra": nextra, "base_as_list": bool(draw(st.booleans())),
         "diff": diff, "reduction": reduction,
         "weights": [draw(st.sampled_from([0.5, 0.25, -0.125, 1.0, 0.375, 2.0])) for _ in range(3)],
         "balancing": pick("balancing", st.sampled_from([None, "spy", "spy", "spy-inplace", "linear", "scaling"])),
         "restoration": restoration, "tvd": tvd,
-        "model": pick("model", st.sampled_from([None, "spy", "spy", "linear", "clip", "clip-open"])),
-        "res_first": bool(draw(st.sampled_from([True, True, False]))),
+        "model": pick("model", st.sampled_from(mod_kinds)),
+        "res_first": res_first, "omit": [omit_diff, omit_order],
+        "bal_par": [draw(st.sampled_from(BAL_SCALINGS)), draw(st.sampled_from(BAL_OFFSETS))],
+        "mod_par": [draw(st.sampled_from(MOD_SCALINGS)), draw(st.sampled_from(MOD_OFFSETS))],
+        "par_key": bool(draw(st.booleans())),
+        "hsv_bounds": hsv_bounds,
+        # which of the 1 + nextra baselines is analysed against the collection (baseline_to_zero)
+        "which": draw(st.integers(0, 3)),
         "cls": draw(st.sampled_from(["Image", "Optical" if rgb else "Scalar"])),
         "meta": {
             "dimensions": [h * vox[0], w * vox[1]],
@@ -256,12 +348,15 @@ class Setup:
         self.case = case
         self.log = []
         self.diff = diff or case["diff"]
+        # an option is left out only where the case says so and the caller did not select one
+        self.omit_diff = bool(diff is None and case["omit"][0])
+        self.omit_order = bool(case["omit"][1])
         seed = case["pseed"]
         self.base_arrs = [] if case["nobase"] else [
             _array(case, case["dtype"] if k == 0 else case["xdtype"], seed + 11 * k)
             for k in range(1 + case["nextra"])]
         if probe_is_base:
-            self.probe_arr = self.base_arrs[0].copy()
+            self.probe_arr = self.base_arrs[case["which"] % len(self.base_arrs)].copy()
         else:
             self.probe_arr = _array(case, case["pdtype"], seed + 7)
         self.bases = [_image(case, a.copy(), "base") for a in self.base_arrs]
@@ -272,29 +367,32 @@ class Setup:
             bal = res = mod = None
         self.kinds = (red, bal, res, mod)
         # code-side stages, each wrapped in a recording spy
-        code_red = _code_reduce(red, w)
+        hb = case["hsv_bounds"]
+        code_red = _code_reduce(red, w, hb)
         self.s_red = None if code_red is None else Spy("reduction", code_red, self.log)
+        bkey, mkey = ("balancing ", "model ") if case["par_key"] else ("", "")
         code_bal = {None: None, "spy": BAL["spy"], "spy-inplace": _inplace_balance,
-                    "linear": darsia.LinearModel(scaling=2.0, offset=1.0),
-                    "scaling": darsia.ScalingModel(scaling=2.0)}[bal]
+                    "linear": _code_affine(darsia.LinearModel, bkey, *case["bal_par"]),
+                    "scaling": _code_affine(darsia.ScalingModel, bkey, case["bal_par"][0])}[bal]
         self.s_bal = None if code_bal is None else Spy("balancing", code_bal, self.log)
         if res == "tvd-cfg":
             code_res = _code_tvd(case["tvd"])
         else:
             code_res = {None: None, "spy": RES["spy"], "tvd": darsia.TVD(**TVD_KW)}[res]
         self.s_res = None if code_res is None else Spy("restoration", code_res, self.log)
-        code_mod = {None: None, "spy": MOD["spy"], "linear": darsia.LinearModel(scaling=3.0, offset=-0.5),
+        code_mod = {None: None, "spy": MOD["spy"], "spy-drop": MOD["spy-drop"],
+                    "linear": _code_affine(darsia.LinearModel, mkey, *case["mod_par"]),
                     "clip": darsia.ClipModel(**{"min value": 0.0, "max value": 1.0}),
                     "clip-open": darsia.ClipModel(**{"min value": 0.25})}[mod]
         self.s_mod = None if code_mod is None else Spy("model", code_mod, self.log)
         # reference maps
-        self.r_red = _ref_reduce(red, w)
-        self.r_bal = (lambda x: x) if bal is None else BAL[bal]
+        self.r_red = _ref_reduce(red, w, hb)
+        self.r_bal = _ref_bal(dict(case, balancing=bal))
         if res == "tvd-cfg":
             self.r_res = _ref_tvd_cfg(case["tvd"])
         else:
             self.r_res = (lambda x: x) if res is None else (_ref_tvd if res == "tvd" else RES[res])
-        self.r_mod = (lambda x: x) if mod is None else MOD[mod]
+        self.r_mod = _ref_mod(dict(case, model=mod))
 
     def analysis(self):
         if self.case["nobase"]:
@@ -303,10 +401,20 @@ class Setup:
             base = self.bases[0]
         else:
             base = list(self.bases)
-        kwargs = {"diff option": self.diff, "restoration -> model": self.case["res_first"]}
+        return self.analysis_on(base)
+
+    def options(self):
+        kwargs = {}
+        if not self.omit_diff:
+            kwargs["diff option"] = self.diff
+        if not self.omit_order:
+            kwargs["restoration -> model"] = self.case["res_first"]
+        return kwargs
+
+    def analysis_on(self, base):
         ca = darsia.ConcentrationAnalysis(
             base=base, signal_reduction=self.s_red, balancing=self.s_bal,
-            restoration=self.s_res, model=self.s_mod, **kwargs)
+            restoration=self.s_res, model=self.s_mod, **self.options())
         self.n_construction_calls = len(self.log)
         return ca
 
@@ -406,7 +514,29 @@ def _labels(case):
             f"dtype-{case['dtype']}", "nobase" if case["nobase"] else "base",
             "extras-same-dtype" if case["xdtype"] == case["dtype"] else "extras-other-dtype",
             f"bal-{case['balancing']}", f"res-{case['restoration']}", f"mod-{case['model']}",
-            f"probe-{_dtype_class(case['pdtype'])}") + _tvd_labels(case)
+            f"probe-{_dtype_class(case['pdtype'])}",
+            "diff-option-omitted" if case["omit"][0] else "diff-option-given",
+            "order-omitted" if case["omit"][1] else "order-given") + _tvd_labels(case) + _par_labels(case)
+
+
+def _par_labels(case):
+    out = ()
+    if case["balancing"] in ("linear", "scaling") or case["model"] == "linear":
+        out += ("params-key-prefixed" if case["par_key"] else "params-plain",)
+        neutral = ((case["balancing"] == "scaling" and case["bal_par"][0] == 1.0)
+                   or (case["balancing"] == "linear" and case["bal_par"] == [1.0, 0.0])
+                   or (case["model"] == "linear" and case["mod_par"] == [1.0, 0.0]))
+        zero = ((case["balancing"] == "linear" and case["bal_par"][1] == 0.0)
+                or (case["model"] == "linear" and 0.0 in case["mod_par"]))
+        out += (("params-neutral",) if neutral else ()) + (("params-with-zero",) if zero else ())
+    if case["reduction"] == "hsv":
+        out += ("hsv-bounds-set" if case["hsv_bounds"] else "hsv-bounds-default",)
+    return out
+
+
+def _drops(case):
+    """The signal loses its channel axis: through the reduction, or through the model."""
+    return bool(case["rgb"] and (case["reduction"] in CHANNEL_DROPPING or case["model"] == "spy-drop"))
 
 
 def _dtype_class(t):
@@ -425,8 +555,7 @@ def _tvd_labels(case):
 
 
 def _nontrivial(case):
-    return bool((case["rgb"] and case["reduction"] in CHANNEL_DROPPING) or case["nextra"] >= 1
-                or not case["res_first"])
+    return bool(_drops(case) or case["nextra"] >= 1 or not case["res_first"])
 
 
 def _key(case):
@@ -445,34 +574,50 @@ def _run(setup, ca, probe=None):
 # 1. baseline_to_zero
 # ---------------------------------------------------------------------------------------
 
-ZERO_PRESERVING = {"balancing": (None, "scaling"), "restoration": (None, "tvd", "tvd-cfg"),
-                   "model": (None, "clip")}
+def _zero_preserving(case):
+    """Every stage after the cleaning maps a zero signal to exactly zero."""
+    bal, res, mod = case["balancing"], case["restoration"], case["model"]
+    return bool((bal in (None, "scaling") or (bal == "linear" and case["bal_par"][1] == 0.0))
+                and res in (None, "tvd", "tvd-cfg")
+                and (mod in (None, "clip", "spy-drop") or (mod == "linear" and case["mod_par"][1] == 0.0)))
 
 
-def check_baseline_to_zero(case):
-    s = Setup(case, probe_is_base=True)
-    ca = s.analysis()
-    res = _run(s, ca)
-    t = _tags(case)
-    got = np.asarray(res.img)
+def _assert_zero_signal(s, got, what, t):
+    """`got` is what the stages after the cleaning make of an all-zero signal."""
+    case = s.case
     sig_shape = tuple(case["shape"]) + ((3,) if case["rgb"] and case["reduction"] not in CHANNEL_DROPPING else ())
-    if got.shape != sig_shape:
-        raise Violation("result-shape", f"baseline as probe: result shape {got.shape}, signal shape {sig_shape}", t)
-    zero = np.zeros(sig_shape)
-    _, _, want = s.ref_tail(zero)
-    zp = (case["balancing"] in ZERO_PRESERVING["balancing"]
-          and case["restoration"] in ZERO_PRESERVING["restoration"]
-          and case["model"] in ZERO_PRESERVING["model"])
+    _, _, want = s.ref_tail(np.zeros(sig_shape))
+    want = np.asarray(want)
+    if got.shape != want.shape:
+        raise Violation("result-shape", f"{what}: result shape {got.shape}, expected {want.shape}", t)
+    zp = _zero_preserving(case)
     if zp:
         if np.any(got != 0):
-            raise Violation("baseline-not-zero", f"baseline analysed against itself gives max |signal| = "
+            raise Violation("baseline-not-zero", f"{what} gives max |signal| = "
                             f"{float(np.abs(got).max())!r} (stages: {s.kinds})", t)
     else:
         tol = 0.0 if case["restoration"] not in TVD_KINDS else 1e-5 * max(1.0, float(np.abs(want).max()))
         if not np.all(np.abs(got - want) <= tol):
-            raise Violation("baseline-not-stages-of-zero", "baseline analysed against itself differs from "
+            raise Violation("baseline-not-stages-of-zero", f"{what} differs from "
                             f"model(restoration(balancing(0))) by {float(np.abs(got - want).max())!r}", t)
-    return Outcome(_nontrivial(case), _key(case), _labels(case) + ("zero-preserving" if zp else "general",))
+    return zp
+
+
+def check_baseline_to_zero(case):
+    # the probe is one of the baselines the analysis was built from: the first one (difference
+    # zero) or one of those behind the cleaning filter (signal <= filter, cleaned to zero)
+    s = Setup(case, probe_is_base=True)
+    ca = s.analysis()
+    res = _run(s, ca)
+    t = _tags(case)
+    which = case["which"] % len(s.base_arrs)
+    t["which"] = which
+    got = np.asarray(res.img)
+    what = ("baseline analysed against itself" if which == 0
+            else f"extra baseline {which} of {case['nextra']} (part of the cleaning filter) as probe")
+    zp = _assert_zero_signal(s, got, what, t)
+    return Outcome(_nontrivial(case), _key(case), _labels(case) + (
+        "zero-preserving" if zp else "general", "probe-first-baseline" if which == 0 else "probe-extra-baseline"))
 
 
 # ---------------------------------------------------------------------------------------
@@ -514,6 +659,15 @@ def check_stage_order(case):
         if not s.close(rec[name][1], prev):
             raise Violation(f"stage-input:{name}", f"{name} did not receive the output of {prev_name}", t)
         prev, prev_name = rec[name][2], name
+    # a built-in reduction, applied to exactly what the stage received (same input: thresholds of
+    # the hue / saturation selection cannot flip); the float32 gray conversion keeps its slack
+    if "reduction" in rec and case["reduction"] not in (None, "gray"):
+        n += 1
+        want_out = np.asarray(s.r_red(rec["reduction"][1]))
+        got_out = rec["reduction"][2]
+        if got_out.shape != want_out.shape or not np.array_equal(got_out, want_out):
+            raise Violation("stage-output:reduction", f"the reduction {case['reduction']!r} (hsv bounds "
+                            f"{case['hsv_bounds']}) maps its input to something else than documented", t)
     # the configured restoration, applied to exactly what the stage received, is the wrapped TV
     # denoising with exactly the configured options (same routine, same input: no tolerance)
     if "restoration" in rec and case["restoration"] in TVD_KINDS:
@@ -673,14 +827,21 @@ def _meta_equal(a, b):
     return a == b
 
 
+def gen_meta(tier):
+    # one case in four: a colour signal reaches the model (which may reduce it to one channel)
+    return st.one_of(configs(), configs(), configs(),
+                     st.sampled_from([None, ""]).flatmap(lambda r: configs(force={"rgb": True, "reduction": r})))
+
+
 def check_result_metadata(case):
     s = Setup(case)
     ca = s.analysis()
     t = _tags(case)
     pm = copy.deepcopy(s.probe.metadata())
     res = _run(s, ca)
-    dropped = case["rgb"] and case["reduction"] in CHANNEL_DROPPING
+    dropped = _drops(case)
     t["dropped"] = dropped
+    t["model"] = case["model"]
     if dropped:
         if not isinstance(res, darsia.ScalarImage) or not res.scalar:
             raise Violation("not-scalar-image", f"signal reduced to one channel but the result is "
@@ -702,7 +863,8 @@ def check_result_metadata(case):
     return Outcome(True, _key(case) | {"meta": case["meta"]},
                    _labels(case)[:3] + (f"cls-{case['cls']}", f"time-{case['meta']['time']}",
                                         "origin-user" if case["meta"]["origin"] else "origin-default",
-                                        "channel-dropped" if dropped else "same-range"))
+                                        "channel-dropped" if dropped else "same-range")
+                   + (("dropped-by-model",) if case["model"] == "spy-drop" else ()))
 
 
 # ---------------------------------------------------------------------------------------
@@ -746,13 +908,271 @@ def check_integer_promotion(case):
     return Outcome(True, _key(case), _labels(case))
 
 
+
+# ---------------------------------------------------------------------------------------
+# 8. baseline_fixed_at_construction
+# ---------------------------------------------------------------------------------------
+
+
+def _scribble(img, seed):
+    """The caller overwrites its own image array in place with unrelated values."""
+    a = img.img
+    rng = np.random.default_rng(seed)
+    if a.dtype.kind in "ui":
+        info = np.iinfo(a.dtype)
+        a[...] = rng.integers(info.min, info.max, size=a.shape, endpoint=True).astype(a.dtype)
+    else:
+        a[...] = (rng.integers(-32, 32, size=a.shape) / 8.0).astype(a.dtype)
+
+
+def _same(a, b):
+    a, b = np.asarray(a), np.asarray(b)
+    return a.shape == b.shape and bool(np.array_equal(a, b))
+
+
+def check_baseline_fixed(case):
+    """The baseline (and the cleaning filter) are fixed at construction: whatever the caller does
+    with its baseline images afterwards, and whichever probes were analysed in between, a probe is
+    mapped to the same result."""
+    s = Setup(case)
+    ca = s.analysis()
+    t = _tags(case)
+    ref = s.reference()
+    first = np.array(_run(s, ca).img, copy=True)
+    if not s.close(first, ref["out"]):
+        raise Violation("composition", "result differs from the reference composition", t)
+    for k, b in enumerate(s.bases):
+        _scribble(b, case["pseed"] + 1000 + k)
+    again = np.asarray(_run(s, ca).img)
+    if not _same(again, first):
+        raise Violation("baseline-not-fixed", "after the caller overwrote its baseline image(s) in place the "
+                        "same probe is mapped to another result (max deviation "
+                        f"{float(np.abs(again - first).max()) if again.shape == first.shape else 'shape'!r})", t)
+    # another probe in between, then the first one again
+    so = Setup(case)
+    so.probe_arr = _array(case, case["pdtype"], case["pseed"] + 13)
+    ref_o = so.reference()
+    got_o = np.asarray(_run(s, ca, _image(case, so.probe_arr.copy(), "probe")).img)
+    if not so.close(got_o, ref_o["out"]):
+        raise Violation("composition-other-probe", "a second, different probe analysed by the same object "
+                        "differs from the reference composition", t)
+    back = np.asarray(_run(s, ca).img)
+    if not _same(back, first):
+        raise Violation("result-depends-on-history", "the first probe analysed again after another one gives "
+                        "another result", t)
+    floats = all(a.dtype.kind == "f" for a in s.base_arrs)
+    return Outcome(True, _key(case), _labels(case) + ("float-baselines" if floats else "promoted-baselines",),
+                   evals=4)
+
+
+# ---------------------------------------------------------------------------------------
+# 9. updated_baseline
+# ---------------------------------------------------------------------------------------
+
+
+def gen_updated(tier):
+    return configs(force={"nobase": False, "nextra": 0})
+
+
+def check_updated_baseline(case):
+    """`update(base=image)` replaces the baseline: from then on the analysis behaves like one
+    constructed with that image (which is copied, and promoted to float where needed)."""
+    s = Setup(case)
+    ca = s.analysis()
+    t = _tags(case)
+    t["udtype"] = case["udtype"]
+    new_arr = _array(case, case["udtype"], case["pseed"] + 101)
+    new_img = _image(case, new_arr.copy(), "base")
+    snap = gens.snapshot(new_img)
+    _run(s, ca)
+    ca.update(base=new_img)
+    s.base_arrs = [new_arr]
+    ref = s.reference()
+    got = np.array(_run(s, ca).img, copy=True)
+    if not s.close(got, ref["out"]):
+        err = float(np.abs(got - ref["out"]).max()) if got.shape == ref["out"].shape else "shape"
+        raise Violation("updated-baseline-composition", "after update(base=...) the result is not the "
+                        f"composition with the new baseline (deviation {err!r})", t)
+    got0 = np.asarray(ca(_image(case, new_arr.copy(), "probe")).img)
+    _assert_zero_signal(s, got0, "the updated baseline analysed against itself", t)
+    ok, why = gens.snapshot_equal(snap, gens.snapshot(new_img))
+    if not ok:
+        raise Violation("baseline-modified", f"image handed to update(base=...) changed: {why}", t)
+    _scribble(new_img, case["pseed"] + 1001)
+    again = np.asarray(_run(s, ca).img)
+    if not _same(again, got):
+        raise Violation("baseline-not-fixed:update", "after the caller overwrote the image it had handed to "
+                        "update(base=...) the same probe is mapped to another result", t)
+    return Outcome(True, _key(case), _labels(case) + (f"update-{_dtype_class(case['udtype'])}",
+                   "update-same-dtype" if case["udtype"] == case["dtype"] else "update-other-dtype"), evals=3)
+
+
+# ---------------------------------------------------------------------------------------
+# 10. cleaning_filter_api
+# ---------------------------------------------------------------------------------------
+
+_CACHE = os.path.join(os.path.dirname(os.path.dirname(os.path.dirname(os.path.abspath(__file__)))),
+                      ".cache", "run-C13")
+
+
+def gen_filter(tier):
+    fl = ["float32", "float64"]
+    # the explicit call takes the images as they are (the caller's processed baselines): float
+    # images; a colour signal needs a channel-dropping reduction (the filter is 2-D)
+    heads = st.tuples(st.booleans(), st.sampled_from(fl), st.sampled_from(fl), st.sampled_from(fl),
+                      st.sampled_from([1, 1, 2, 3]),
+                      st.sampled_from(["callable", "red", "green", "blue", "red+green", "negative-key", "gray"]))
+    return heads.flatmap(lambda a: configs(force=dict(
+        {"nobase": False, "rgb": a[0], "dtype": a[1], "pdtype": a[2], "xdtype": a[3], "nextra": a[4]},
+        **({"reduction": a[5]} if a[0] else {}))))
+
+
+def check_cleaning_filter_api(case):
+    """find_cleaning_filter(images) on an analysis of the first baseline gives the analysis
+    constructed from the whole collection; the filter survives write / read into another analysis
+    of the same baseline; find_cleaning_filter() falls back to the internal collection."""
+    from pathlib import Path
+
+    s = Setup(case)
+    t = _tags(case)
+    ref = s.reference()
+    ca = s.analysis_on(s.bases[0])
+    ca.find_cleaning_filter(list(s.bases[1:]))
+    got = np.array(_run(s, ca).img, copy=True)
+    if not s.close(got, ref["out"]):
+        err = float(np.abs(got - ref["out"]).max()) if got.shape == ref["out"].shape else "shape"
+        raise Violation("explicit-filter", "after find_cleaning_filter(images) the result is not the "
+                        f"composition cleaned with these images (deviation {err!r})", t)
+    k = 1 + case["which"] % case["nextra"]
+    got0 = np.asarray(ca(_image(case, s.base_arrs[k].copy(), "probe")).img)
+    _assert_zero_signal(s, got0, f"image {k} of the list handed to find_cleaning_filter, as probe", t)
+    # store / load
+    d = os.path.join(_CACHE, f"{os.getpid()}-{case['pseed']}")
+    path = os.path.join(d, "filters", "cleaning.npy")
+    try:
+        ca.write_cleaning_filter_to_file(path if case["which"] % 2 else Path(path))
+        ca2 = s.analysis_on(s.bases[0])
+        ca2.read_cleaning_filter_from_file(Path(path) if case["which"] % 2 else path)
+        got2 = np.asarray(_run(s, ca2).img)
+    finally:
+        shutil.rmtree(d, ignore_errors=True)
+    if not _same(got2, got):
+        raise Violation("filter-file-roundtrip", "an analysis of the same baseline that read the stored "
+                        "cleaning filter maps the probe to another result", t)
+    # default: the internally available baselines (here: none beyond the first) -> no cleaning
+    ca.find_cleaning_filter()
+    s0 = Setup(dict(case, nextra=0))
+    got3 = np.asarray(_run(s, ca).img)
+    if not s0.close(got3, s0.reference()["out"]):
+        raise Violation("filter-default-collection", "find_cleaning_filter() without images on an analysis of "
+                        "a single baseline does not fall back to 'no cleaning'", t)
+    return Outcome(True, _key(case), _labels(case), evals=4)
+
+
+# ---------------------------------------------------------------------------------------
+# 11. prior_posterior
+# ---------------------------------------------------------------------------------------
+
+
+class Spy2:
+    """Recording spy for the two-step conversion (several arguments)."""
+
+    def __init__(self, name, fn, log):
+        self.name, self.fn, self.log = name, fn, log
+
+    def __call__(self, *args):
+        ins = tuple(np.array(a, copy=True) for a in args)
+        out = self.fn(*args)
+        self.log.append((self.name, ins, np.array(out, copy=True)))
+        return out
+
+
+def _prior(signal, mask):
+    m = mask if signal.ndim == mask.ndim else mask[:, :, None]
+    return np.where(m, 3.0 * signal - 0.5, 0.25)
+
+
+def _posterior(signal, prior, diff):
+    return prior + 0.5 * signal
+
+
+def gen_pp(tier):
+    return configs(force={"nobase": False, "model": "spy"})
+
+
+def check_prior_posterior(case):
+    """PriorPosteriorConcentrationAnalysis: same pipeline, the conversion being
+    posterior(signal, prior(signal, mask), original difference)."""
+    if case["balancing"] == "spy-inplace":
+        # a stage working in place on an unreduced, uncleaned signal would work on the difference
+        # array itself; what the posterior then sees of it is not specified
+        case = dict(case, balancing="spy")
+    s = Setup(case)
+    t = _tags(case)
+    base = s.bases[0] if (len(s.bases) == 1 and not case["base_as_list"]) else list(s.bases)
+    prior, posterior = Spy2("prior", _prior, s.log), Spy2("posterior", _posterior, s.log)
+    ca = darsia.PriorPosteriorConcentrationAnalysis(
+        base, s.s_red, s.s_bal, s.s_res, prior, posterior, None, **s.options())
+    h, w = case["shape"]
+    mask = np.ones((h, w), dtype=bool)
+    custom = case["which"] % 2 == 1
+    if custom:
+        mask = np.random.default_rng(case["pseed"] + 5).integers(0, 2, size=(h, w)).astype(bool)
+        ca.update(mask=mask.copy())
+    res = _run(s, ca)
+    names = [e[0] for e in s.log]
+    want = []
+    for nme in s.expected_order():
+        want += ["prior", "posterior"] if nme == "model" else [nme]
+    if names != want:
+        raise Violation("stage-order:prior-posterior", f"stages called {names}, documented order {want}", t)
+    rec = {e[0]: e for e in s.log}
+    ref_d = s.reference()["diff"]
+    before = want[want.index("prior") - 1] if want.index("prior") > 0 else None
+    sig_in, mask_in = rec["prior"][1]
+    if before in ("balancing", "restoration") and not _same(sig_in, rec[before][2]):
+        raise Violation("stage-input:prior", f"the prior model did not receive the output of {before}", t)
+    if before in (None, "reduction"):
+        _, bases_f = s.float_inputs()
+        filt = s.ref_filter(bases_f)
+        sig = rec["reduction"][2] if before == "reduction" else ref_d
+        clean = sig if filt is None else np.maximum(sig - filt, 0)
+        if not s.close(sig_in, clean):
+            raise Violation("stage-input:prior", "the prior model did not receive the cleaned signal", t)
+    if mask_in.dtype != bool or not _same(mask_in, mask):
+        raise Violation("prior-mask", "the prior model did not receive the "
+                        + ("mask set by update(mask=...)" if custom else "all-true default mask"), t)
+    p_sig, p_prior, p_diff = rec["posterior"][1]
+    if not _same(p_sig, sig_in):
+        raise Violation("stage-input:posterior", "the posterior model did not receive the signal the prior saw", t)
+    if not _same(p_prior, rec["prior"][2]):
+        raise Violation("stage-input:posterior", "the posterior model did not receive the prior's output", t)
+    if not s.close(p_diff, ref_d):
+        raise Violation("posterior-diff", "the posterior model did not receive the original difference of "
+                        f"probe and baseline (option {case['diff']!r})", t)
+    s.r_mod = lambda x: _posterior(x, _prior(x, mask), None)
+    ref = s.reference()
+    got = np.asarray(res.img)
+    if not s.close(got, ref["out"]):
+        raise Violation("composition:prior-posterior", "result differs from the composition with the "
+                        "two-step conversion", t)
+    return Outcome(_nontrivial(case), _key(case), _labels(case) + ("mask-updated" if custom else "mask-default",),
+                   evals=6)
+
+
 _RULE = ("Hypothesis draws the configuration: scalar / RGB, shape 2..16 x 2..16, dtype of baselines and "
          "probe (uint8, uint16, int16, int32 [int64 in integer_promotion], float32, float64; mixed in 25 %), no baseline / single / list with 0-3 "
          "extra baselines, diff option, reduction (none, '', callable weighted channel sum, built-in "
          "colour keys), balancing / restoration / model each absent, a recording spy with a small "
-         "non-commuting map (2x+1, x^2+1/4, 3x-1/2; one variant works in place) or the real "
-         "LinearModel / ScalingModel / TVD / ClipModel, both stage orders, image class and physical "
-         "metadata; the TVD restoration is either fixed (Chambolle, 0.25 / 30 / 1e-5) or configured "
+         "non-commuting map (2x+1, x^2+1/4, 3x-1/2; one variant works in place; for colour signals a "
+         "model that itself sums the channels) or the real LinearModel / ScalingModel (scaling in "
+         "{3, 2, 1, 1/2, 0, -1, -2}, offset in {1, 1/4, 0, -1/4, -1/2}, given plainly or as a key-prefixed "
+         "option group) / TVD / ClipModel, both stage orders, 'diff option' left out in 20 % and "
+         "'restoration -> model' in 25 % of the cases, image class and physical metadata; the hue / "
+         "saturation reduction (constructed for 1 in 6 RGB cases) with default or drawn bounds; which of "
+         "the 1 + k baselines is analysed against the collection; an updated baseline of any dtype; "
+         "explicit cleaning-filter images (float), stored and re-read; the prior/posterior variant with "
+         "default or updated mask; the TVD restoration is either fixed (Chambolle, 0.25 / 30 iterations / eps 0, i.e. never stopping early) or configured "
          "through an option group: key prefix '' / 'restoration ' / 'tvd_', method Chambolle / "
          "anisotropic / isotropic Bregman, weight, max_num_iter and eps each drawn (for Chambolle "
          "also left out); payloads are dyadic (k/8) for floats and full-range (both signs for signed "
@@ -761,6 +1181,7 @@ _RULE = ("Hypothesis draws the configuration: scalar / RGB, shape 2..16 x 2..16,
          "distinct = the configuration incl. payload seed")
 
 _N = {"quick": 600, "thorough": 15000}
+_N2 = {"quick": 300, "thorough": 8000}
 _SH = {"quick": 2, "thorough": 16}
 
 PROP = Prop(
@@ -778,11 +1199,29 @@ PROP = Prop(
         "key prefix the options carry; an option is left out only for Chambolle, where the wrapper's "
         "default equals skimage's (0.1 / 200 / 2e-4); applied to the recorded stage input the comparison "
         "is exact; a configured TVD is not combined with the float32 reductions gray / hsv (round-off "
-        "could move its stopping iteration)",
+        "could move its stopping iteration); the fixed variant runs with eps = 0, i.e. always all 30 "
+        "iterations, for the same reason",
         "every non-float dtype counts as integer-typed and is promoted with skimage.img_as_float "
         "(unsigned -> [0, 1], signed -> [-1, 1]) for baselines and probe alike",
         "extra baselines are only combined with a signal that has no channel axis (the cleaning filter "
         "is 2-D); hsv reduction only on integer inputs and non-plain differences",
+        "a left-out 'diff option' means 'absolute' and a left-out 'restoration -> model' means restoration "
+        "first (constructor defaults; the form of the shipped examples and presets, and 'swapped when so "
+        "configured' in the statement)",
+        "every baseline of the collection is mapped to a zero signal, not only the first: the cleaning "
+        "filter is the maximum over exactly these reduced differences, computed by the same operations",
+        "the result is a scalar image whenever the signal has lost its channel axis, whichever stage "
+        "dropped it (the model does in darsia.utils.detection.monochromatic_concentration_analysis)",
+        "the baseline is copied at construction and at update(base=image) (anchor: 'baseline copy ... fixed "
+        "at construction / update'): overwriting the caller's images afterwards, or analysing other probes "
+        "in between, does not change a result; update(base=image) makes the analysis behave like one "
+        "constructed with that image (single baseline, no cleaning filter in that sub-check)",
+        "find_cleaning_filter(images) takes float images as they are (its caller hands over processed "
+        "baselines); write/read of the filter (.npy path, str or Path) is loss-free; find_cleaning_filter() "
+        "without images uses the collection given at construction",
+        "PriorPosteriorConcentrationAnalysis: the conversion is posterior(signal, prior(signal, mask), "
+        "original difference) with mask = all-true of the baseline's shape unless set by update(mask=...); "
+        "no in-place stage in that sub-check (it would work on the difference array itself)",
     ],
     subs=[
         Sub("baseline_to_zero", check_baseline_to_zero, gen=gen_base, n=_N, shards=_SH),
@@ -790,8 +1229,12 @@ PROP = Prop(
         Sub("equals_reference_composition", check_reference_composition, gen=gen, n=_N, shards=_SH),
         Sub("diff_options", check_diff_options, gen=gen_diff, n={"quick": 300, "thorough": 8000}, shards=_SH),
         Sub("probe_unmodified", check_probe_unmodified, gen=gen_unmodified, n=_N, shards=_SH),
-        Sub("result_metadata", check_result_metadata, gen=gen, n=_N, shards=_SH),
+        Sub("result_metadata", check_result_metadata, gen=gen_meta, n=_N, shards=_SH),
         Sub("integer_promotion", check_integer_promotion, gen=gen_integer,
             n={"quick": 400, "thorough": 10000}, shards=_SH),
+        Sub("baseline_fixed_at_construction", check_baseline_fixed, gen=gen_base, n=_N2, shards=_SH),
+        Sub("updated_baseline", check_updated_baseline, gen=gen_updated, n=_N2, shards=_SH),
+        Sub("cleaning_filter_api", check_cleaning_filter_api, gen=gen_filter, n=_N2, shards=_SH),
+        Sub("prior_posterior", check_prior_posterior, gen=gen_pp, n=_N2, shards=_SH),
     ],
 )
